@@ -17,6 +17,9 @@ from wormhole._boss import Boss
 from wormhole._code import Code, validate_code
 from wormhole._input import Input, Helper
 from wormhole._nameplate import validate_nameplate
+from wormhole import _rlcompleter
+from wormhole._rlcompleter import CodeInputter
+from twisted.internet.defer import Deferred
 from wormhole._wordlist import PGPWordList
 from wormhole.journal import ImmediateJournal
 
@@ -30,13 +33,16 @@ TRUSTED = ["os.urandom returns independent uniform bytes (the entropy source is 
            "Python `re`/`str` semantics of the two known nameplate regexes and of `\\d` (= str.isdecimal(), Unicode Nd): "
            "modelled; the generated Nd range table is compared with `re` over all 0x110000 code points on every run",
            "Nameplate / Key / Lister / RendezvousConnector behind Code, Allocator and Input are recording stand-ins "
-           "(their own behaviour belongs to C08/C09/C14)"]
+           "(their own behaviour belongs to C08/C09/C14)",
+           "_rlcompleter: readline and blockingCallFromThread are replaced by synchronous calls in the reactor thread; the one "
+           "call that really blocks (when_wordlist_is_available after the commit) is resolved by delivering got_wordlist meanwhile"]
 RULE = ("all 256x2 byte->word lookups through the real choose_words under a scripted os.urandom; choose_words for "
         "lengths 0..20; validate_nameplate/validate_code on a corpus of boundary strings (trailing newline, tabs, "
         "non-ASCII digits, empty) and random mutations of well-formed codes; get_completions on prefixes of 0-4 words "
         "with partial words, stray hyphens, upper case and non-ASCII; API histories over Boss.allocate_code/set_code/"
         "input_code, Allocator connected/lost/rx_allocated, Input got_nameplates/got_wordlist and all Helper calls in "
-        "legal and illegal orders; non-trivial = every case (each reaches a modelled branch); distinct = distinct "
+        "legal and illegal orders; readline edit histories on the real CodeInputter (TAB/Return on lines whose nameplate is "
+        "extended, shortened, replaced or kept after it was committed); non-trivial = every case (each reaches a modelled branch); distinct = distinct "
         "canonical output traces")
 
 ODD = [_wordlist.byte_to_odd_word[bytes([i])].lower() for i in range(256)]
@@ -305,6 +311,64 @@ def rand_op(rng):
     return rand_helper_op(rng)
 
 
+RL_NPS = ["12", "123", "4", "47", "7", "9", "124"]
+
+
+def rl_history(rng):
+    """an edit history at the readline prompt: type, TAB, commit with '-', go back and change the nameplate
+    (to an extension of the committed one, to a different one, to a shorter one, or not at all), TAB, Return"""
+    listed = sorted(set(rng.sample(RL_NPS, rng.randrange(0, 5))))
+    a = rng.choice(listed or RL_NPS)
+    ops = [["input"]]
+    if rng.random() < 0.85:
+        ops.append(["gotnp", listed])
+    if rng.random() < 0.6:
+        ops.append(["rl", "tab", a[:rng.randrange(0, len(a) + 1)]])
+    if rng.random() < 0.3:
+        ops.append(["rl", "tab", a])
+    w1, w2 = rand_word(rng, 0), rand_word(rng, 1)
+    how = rng.choice(["hyphen", "partial", "partial", "none"])
+    if how == "hyphen":
+        ops.append(["rl", "tab", a + "-"])
+    elif how == "partial":
+        ops.append(["rl", "tab", a + "-" + w1[:rng.randrange(1, 4)]])
+    # the edit
+    r = rng.random()
+    if r < 0.35:
+        b_ = a
+    elif r < 0.6:
+        b_ = a + rng.choice("0123456789")                 # extension of the committed nameplate (12 -> 123)
+    elif r < 0.7:
+        b_ = a[:-1]                                       # shorter (possibly empty)
+    elif r < 0.8:
+        b_ = rng.choice("0123456789") + a                 # committed one is a suffix
+    else:
+        b_ = rng.choice([n for n in RL_NPS if n != a] + ["x", "1 2", "", "٣"])
+    for _ in range(rng.choice([0, 1, 1, 2])):
+        form = rng.random()
+        if form < 0.15:
+            ops.append(["rl", "tab", b_])                                  # hyphen deleted
+        elif form < 0.45:
+            ops.append(["rl", "tab", b_ + "-" + w1[:rng.randrange(0, len(w1) + 1)]])
+        elif form < 0.8:
+            ops.append(["rl", "tab", b_ + "-" + w1 + "-" + w2[:rng.randrange(0, len(w2) + 1)]])
+        else:
+            ops.append(["rl", "tab", b_ + "-" + rand_prefix(rng)])
+        if rng.random() < 0.15:
+            ops.append(rng.choice([["gotwl"], ["gotnp", listed], ["h", "wwa"], ["h", "wc", "a"]]))
+    fin = rng.random()
+    c_ = b_ if fin < 0.7 else a
+    if fin < 0.9:
+        ops.append(["rl", "finish", c_ + "-" + w1 + "-" + w2])
+    elif fin < 0.95:
+        ops.append(["rl", "finish", c_])
+    else:
+        ops.append(["rl", "finish", c_ + "-" + rng.choice(["", "x", "has space", w1])])
+    if rng.random() < 0.2:
+        ops.append(rng.choice([["rl", "finish", a + "-" + w1 + "-" + w2], ["rl", "tab", a + "-"], ["set", "4-a"]]))
+    return ops
+
+
 def cases(rng, tier):
     k = 1 if tier == "quick" else 30
     out = [dict(kind="tables"), dict(kind="nd")]
@@ -340,6 +404,25 @@ def cases(rng, tier):
     ]
     for ops in corpus_api:
         out.append(dict(kind="api", ops=ops))
+    corpus_rl = [
+        [["input"], ["gotnp", ["12", "123"]], ["rl", "tab", "1"], ["rl", "tab", "12-"], ["rl", "tab", "12-ar"],
+         ["rl", "tab", "12-armistice-b"], ["rl", "finish", "12-armistice-baboon"]],
+        [["input"], ["gotnp", ["12", "123"]], ["rl", "tab", "12-"], ["rl", "tab", "123-ar"], ["rl", "finish", "123-armistice-baboon"]],
+        [["input"], ["gotnp", ["4", "47"]], ["rl", "tab", "4-"], ["rl", "tab", "47-"], ["rl", "tab", "47-armistice-"],
+         ["rl", "finish", "47-armistice-baboon"]],
+        [["input"], ["rl", "tab", "12-"], ["rl", "finish", "123-armistice-baboon"]],
+        [["input"], ["rl", "tab", "12-"], ["rl", "tab", "13-"], ["rl", "tab", "1"], ["rl", "tab", ""], ["rl", "tab", "2-a"],
+         ["rl", "tab", "112-a"], ["rl", "finish", "1-a"], ["rl", "finish", "12"], ["rl", "finish", "12-a-b"], ["rl", "finish", "12-a-b"]],
+        [["input"], ["rl", "finish", "7-armistice-baboon"]],
+        [["input"], ["rl", "finish", "7"], ["rl", "finish", "x-a"], ["rl", "finish", "7-"], ["rl", "tab", "7-"]],
+        [["input"], ["rl", "tab", "x-"], ["rl", "tab", "-"], ["rl", "tab", "7\n-"], ["rl", "tab", "7-a"], ["rl", "tab", "7--"],
+         ["rl", "finish", "7-a-b-c"]],
+        [["rl", "tab", "1"], ["rl", "tab", "1-"], ["rl", "finish", "1-a"], ["input"], ["rl", "tab", "1-"]],
+        [["input"], ["h", "choosenp", "5"], ["rl", "tab", "5-"], ["rl", "tab", "5"], ["rl", "finish", "5-a"], ["rl", "finish", "6-a"]],
+        [["gotwl"], ["input"], ["rl", "tab", "5-a"], ["gotwl"], ["rl", "tab", "5-a"], ["rl", "finish", "5-absurd"]],
+    ]
+    for ops in corpus_rl:
+        out.append(dict(kind="api", ops=ops))
     # generated ----------------------------------------------------------------
     for _ in range(30 * k):
         n = rng.choice([0, 1, 2, 2, 3, 4, 6, 9])
@@ -360,6 +443,8 @@ def cases(rng, tier):
             out.append(dict(kind="gcseq", queries=qs))
     for _ in range(120 * k):
         out.append(dict(kind="api", ops=legal_api(rng)))
+    for _ in range(150 * k):
+        out.append(dict(kind="api", ops=rl_history(rng)))
     for _ in range(60 * k):
         ops = [rand_op(rng) for _ in range(rng.randrange(1, 14))]
         r = rng.random()
@@ -385,6 +470,20 @@ def cases(rng, tier):
             for a in hops:
                 for b in hops:
                     out.append(dict(kind="api", ops=ph + [a, b]))
+        # readline front-end: commit nameplate a (by "a-" TAB, "a-ar" TAB, or not at all), edit to b, TAB in one of
+        # four shapes (or not), Return with a or b
+        for a in ["12", "4"]:
+            for b_ in [a, a + "3", a + "0", a[:-1], "9", "9" + a, ""]:
+                for commit in [None, a + "-", a + "-ar"]:
+                    for second in [None, b_, b_ + "-", b_ + "-ar", b_ + "-armistice-b"]:
+                        for fin in [a, b_]:
+                            ops = [["input"], ["gotnp", ["12", "123", "4", "47"]]]
+                            if commit:
+                                ops.append(["rl", "tab", commit])
+                            if second is not None:
+                                ops.append(["rl", "tab", second])
+                            ops.append(["rl", "finish", fin + "-armistice-baboon"])
+                            out.append(dict(kind="api", ops=ops))
         # every 1- and 2-letter prefix, first and second word
         import string
         for a in string.ascii_lowercase:
@@ -543,6 +642,20 @@ def run_api(case):
     known_nps = set()
     have_wordlist = False
     codes = []
+    rl_committed = None      # the nameplate the readline front-end has handed to Nameplate (observed, not read from it)
+
+    def bcft(f, *a, **kw):
+        """blockingCallFromThread, in the reactor thread: a plain call; a Deferred that has not fired is what
+        the real call would block on — the claim response (got_wordlist) arrives meanwhile"""
+        r = f(*a, **kw)
+        if isinstance(r, Deferred) and not r.called:
+            r.addCallback(lambda _: events.append("waiter"))
+            b._I.got_wordlist(PGPWordList())
+            events.append("claimed-while-blocked")
+        return r
+
+    ci = CodeInputter(helper, None)
+    ci.bcft = bcft
 
     def V(sig, msg):
         if len(viol) < 5:
@@ -622,9 +735,33 @@ def run_api(case):
                 res = _catch(f)
             else:
                 raise ValueError(op)
+        elif kind == "rl":
+            if op[1] == "tab":
+                line = "rl tab " + hs(op[2])
+
+                def f():
+                    nonlocal ret
+                    ret = []
+                    with mock.patch.object(_rlcompleter, "readline", mock.Mock(get_completion_type=mock.Mock(return_value=0))):
+                        for state in range(100000):
+                            m = ci._wrapped_completer(op[2], state)
+                            if m is None:
+                                break
+                            ret.append(m)
+                    return ",".join(hs(x) for x in ret) if ret else "."
+                res = _catch(f)
+                if res[:1].isupper():
+                    ret = None
+            elif op[1] == "finish":
+                line = "rl finish " + hs(op[2])
+                res = _call(ci.finish, op[2])
+            else:
+                raise ValueError(op)
         else:
             raise ValueError(op)
         new = events[mark:]
+        blocked_claim = "claimed-while-blocked" in new
+        new = [e for e in new if e != "claimed-while-blocked"]
         cmds = []
         for e in new:
             if e == "waiter":
@@ -636,8 +773,13 @@ def run_api(case):
                 cmds.append(e)
         latch = "true" if b._did_start_code else "false"
         lines.append(line)
-        exp.append(f"{res} | {' '.join(cmds)} | {latch} {automat_state(b._C)} {automat_state(b._I)} {automat_state(b._A)}")
-        tags.append("op:" + (kind if kind != "h" else "h." + op[1]) + "=" + (res if res[:1].isupper() else "ok"))
+        states = f"{latch} {automat_state(b._C)} {automat_state(b._I)} {automat_state(b._A)}"
+        if kind == "rl":
+            com = "none" if ci._committed_nameplate is None else hs(ci._committed_nameplate)
+            exp.append(f"{res} | {' '.join(cmds)} | committed={com} used={'true' if ci.used_completion else 'false'} | {states}")
+        else:
+            exp.append(f"{res} | {' '.join(cmds)} | {states}")
+        tags.append("op:" + (kind if kind not in ("h", "rl") else kind + "." + op[1]) + "=" + (res if res[:1].isupper() else "ok"))
 
         # ------------------------------------------------------------ oracle
         got_codes = [e for e in new if e.startswith("B.got_code")]
@@ -669,6 +811,52 @@ def run_api(case):
                 n_accepted += 1
                 if n_accepted > 1:
                     V("second-start-accepted", f"{op}: a second code-start call returned normally")
+        if kind == "rl":
+            text = op[2]
+            typed_np = text.split("-", 1)[0] if "-" in text else None
+            setnp = [e for e in new if e.startswith("N.set_nameplate:")]
+            if rl_committed is not None and typed_np != rl_committed:
+                # any change of the nameplate that was handed to Nameplate must be refused: by the front-end
+                # (AlreadyInputNameplateError) if a TAB committed it, else by Input underneath
+                # (AlreadyChoseNameplateError; KeyFormatError for a line without hyphen / a malformed nameplate)
+                want = ("AlreadyInputNameplateError", "AlreadyChoseNameplateError", "KeyFormatError")
+                if res not in want:
+                    V("rollback-accepted", f"nameplate {rl_committed!r} was committed; {op[1]}({text!r}) -> "
+                                           f"{res if res[:1].isupper() else 'accepted'} (offered {ret[:3] if ret else ret})")
+                if new:
+                    V("rollback-accepted", f"nameplate {rl_committed!r} was committed; {op[1]}({text!r}) called {new}")
+            if op[1] == "tab" and ret is not None:
+                for c_ in ret:
+                    if not c_.startswith(text):
+                        V("completion-not-extending", f"TAB on {text!r} offers {c_!r}")
+                        break
+                if typed_np is not None and phase in ("words",) or setnp:
+                    wl_known = have_wordlist or blocked_claim
+                    if wl_known and typed_np is not None and (rl_committed in (None, typed_np)):
+                        words = text.split("-", 1)[1]
+                        stripped = [c_[len(typed_np) + 1:] for c_ in ret if c_.startswith(typed_np + "-")]
+                        if len(stripped) != len(ret):
+                            V("completion-unacceptable", f"TAB on {text!r} offers {ret[:3]}: not under nameplate {typed_np!r}")
+                        for v in completion_violations(words, 2, set(stripped)):
+                            V(*v)
+                if ret != sorted(ret):
+                    V("completions-unsorted", f"TAB on {text!r}: {ret[:4]}")
+            if op[1] == "finish" and res == "ok":
+                if got_codes != ["B.got_code:" + hs(text)]:
+                    delivered = [bytes.fromhex(g.split(":")[1].replace("-", "")).decode("utf8") if g.split(":")[1] != "-" else ""
+                                 for g in got_codes]
+                    V("finished-code-differs", f"the user finished with {text!r}; code delivered to Boss: {delivered}")
+            # keep the bookkeeping of the layers below in step with what was observed
+            if setnp:
+                np_seen = bytes.fromhex(setnp[0].split(":")[1]).decode("utf8") if setnp[0].split(":")[1] != "-" else ""
+                if rl_committed is None:
+                    rl_committed = np_seen
+                if phase == "np":
+                    phase, chosen_np = "words", np_seen
+            if blocked_claim and phase == "words":
+                have_wordlist = True
+            if got_codes and phase == "words":
+                phase = "done"
         if kind == "rxalloc" and got_codes:
             code = bytes.fromhex(got_codes[0].split(":")[1].replace("-", "")).decode("utf8")
             n = alloc_n if alloc_n is not None else -1
